@@ -62,12 +62,12 @@ import (
 // scenario and the reference relation (never from the generator's intent).
 type atomStats struct {
 	atomic, atomicMulti, atomicFive, atomicEmptyPath, atomicDeletes, atomicOnlyDeletes bool
-	atomicKeyed                                                                         bool
-	prefixLen                                                                           [4]bool // 0, 1, 2, 3+ index strings after the target
-	atOrAbove, belowTouched, belowUntouched, outside                                    bool
-	untouchedSibling, untouchedDeeper                                                   bool
-	plainBelowUntouched                                                                 bool // the same placement under a NON-atomic container (control)
-	full                                                                                bool
+	atomicKeyed                                                                        bool
+	prefixLen                                                                          [4]bool // 0, 1, 2, 3+ index strings after the target
+	atOrAbove, belowTouched, belowUntouched, outside                                   bool
+	untouchedSibling, untouchedDeeper                                                  bool
+	plainBelowUntouched                                                                bool // the same placement under a NON-atomic container (control)
+	full                                                                               bool
 }
 
 // see classifies the live subscription paths against one notification.
@@ -307,12 +307,12 @@ func (s *capStream) take() []seen {
 }
 
 type cacheStats struct {
-	ran, skipped                                 bool
-	accepted, rejected, rejectedAtomicDeletes    bool
-	atomicLeafReplaced, walkAtomic               bool
-	onceAtomicAbove, onceAtomicTrailingGlob      bool
+	ran, skipped                                  bool
+	accepted, rejected, rejectedAtomicDeletes     bool
+	atomicLeafReplaced, walkAtomic                bool
+	onceAtomicAbove, onceAtomicTrailingGlob       bool
 	onceAtomicBelowOther, onceNothing, onceLeaves bool
-	offeredSome                                  bool
+	offeredSome                                   bool
 }
 
 func (s cacheStats) labels() []string {
